@@ -35,7 +35,9 @@ ASSUMPTIONS = [
     "'no handler call, no crash, ledger clean, driver usable' and counted (tag chan.discard)",
     "bad_alloc is not a system call here; TLS flavour not covered by this check",
 ]
-TRUSTED = ["descriptor ledger and fail_at of the vos shim", "fork/waitpid isolation in harness/scen/faults.cpp"]
+TRUSTED = ["descriptor ledger and fail_at of the vos shim", "fork/waitpid isolation in harness/scen/faults.cpp",
+           "the transcript parser of Drive/C14.lean (lines -> typed Spec.Obs); the predicate itself (Spec/C14.lean) is a theorem "
+           "of the model (spec_holds_on_model), its clauses are read against the property text"]
 ALL_TAGS = ["chan.exn", "chan.disconnect", "chan.future", "chan.discard", "discarded", "faults.0", "faults.1", "faults.2"] + \
            ["scen." + s for s in SCENARIOS] + \
            ["fault." + c for c in ["socket", "bind", "listen", "connect", "accept", "fcntl", "setsockopt", "getsockopt",
@@ -75,7 +77,8 @@ def extra_coverage(stats):
                 errno_plausibility_lists="harness/scen/faults.cpp: errnosFor()")
 
 
-TECHNIQUE = ("Lean 4 theorems over all fault oracles (ownership calculus on an exception/ledger monad) + exhaustive single-fault "
+TECHNIQUE = ("Lean 4 theorems over all fault oracles (ownership calculus on an exception/ledger monad; the run-time oracle "
+             "Spec/C14.lean is proved to accept every trace of the model: spec_holds_on_model) + exhaustive single-fault "
              "injection on the real library with model/implementation correspondence")
 LEVEL_TEXT = ("Machine-checked theorems about a descriptor-ledger model in which every public constructor and throwing operation "
               "is a program over `sys` calls answered by an arbitrary fault oracle (any number of faults): a failed call ends in an "
@@ -85,8 +88,16 @@ LEVEL_TEXT = ("Machine-checked theorems about a descriptor-ledger model in which
               "destruction restores the ledger; after a failure any next program behaves again as specified. Tied to /repo on every "
               "run by executing 26 scenarios of the real API with a fault at every position of their intercepted call trace "
               "(each in a forked child, under ASan/UBSan), comparing outcomes, events and closes with the model and evaluating the "
-              "property predicate directly on the observed traces.")
+              "property predicate directly on the observed traces. The predicate is its own module (Spec/C14.lean: typed "
+              "observations, total functions specStep/specRun, no model state; the driver only parses lines into them) and "
+              "theorem spec_holds_on_model proves that it accepts the observations the model produces (every call with its answer, "
+              "every close, events, outcomes, ledger line - read off the model's log) for every fault oracle and every history of "
+              "rounds of constructors / operations / consuming constructors / driver steps on arbitrary driver states: a spec "
+              "verdict on the implementation is therefore a difference between implementation and model, and the oracle is never "
+              "stricter than the model.")
 LEVEL_NOTE = ("Trusted: Lean kernel; axioms propext/Quot.sound/Classical.choice; the hand-written ownership model (tied to the code only "
               "through the scenarios run); vos shim (fail_at, ledger). Destructor-issued calls are not faulted; errno lists are a choice; "
               "pairs of faults are sampled, not exhaustive; the send future carries a sliced std::runtime_error (no errno), which the "
-              "property accepts as 'through the send future'.")
+              "property accepts as 'through the send future'. spec_holds_on_model assumes that the scenario flag 'UDP/acceptor "
+              "scenario' of the predicate is truthful (no Stop in such a scenario, no readable UDP socket / acceptor in the others) "
+              "and that query is used with a socket call; both shown necessary by examples.")
